@@ -105,6 +105,14 @@ def erodeCol (g : Graph) (col : List Rat) : Option (List Rat) :=
 def erodeOpenCol (g : Graph) (col : List Rat) : Option (List Rat) :=
   (List.range g.V).mapM (fun i => listMin ((openRow g i).map (at_ col)))
 
+/-- specification form on a total field: closed-neighbourhood maximum -/
+def dilF (g : Graph) (f : Nat → Rat) : Nat → Rat :=
+  fun i => foldMax (f i) ((closedRow g i).map f)
+
+/-- specification form on a total field: closed-neighbourhood minimum -/
+def eroF (g : Graph) (f : Nat → Rat) : Nat → Rat :=
+  fun i => foldMin (f i) ((closedRow g i).map f)
+
 def iterOpt {α} (f : α → Option α) : Nat → α → Option α
   | 0, a => some a
   | n + 1, a => (f a).bind (iterOpt f n)
